@@ -92,10 +92,16 @@ func NewVariablesValidator(options VariablesValidatorOptions) *VariablesValidato
 
 func (v *VariablesValidator) ValidateWithRemap(operation, definition *ast.Document, variables []byte, variablesMap map[string]string) error {
 	v.visitor.variablesMap = variablesMap
-	return v.Validate(operation, definition, variables)
+	return v.validate(operation, definition, variables)
 }
 
 func (v *VariablesValidator) Validate(operation, definition *ast.Document, variables []byte) error {
+	// the validator is reusable: do not keep the remap table of a previous ValidateWithRemap
+	v.visitor.variablesMap = nil
+	return v.validate(operation, definition, variables)
+}
+
+func (v *VariablesValidator) validate(operation, definition *ast.Document, variables []byte) error {
 	v.visitor.definition = definition
 	v.visitor.operation = operation
 	v.visitor.variables, v.visitor.err = astjson.ParseBytes(variables)
